@@ -193,7 +193,7 @@ func (b *assignmentBuilder) structFieldAndStructGettersAndFields(
 		if c, ok := b.castNode(lhs.ExprType(), rhs); ok && !memberWise {
 			rhsExpr := c.AssignExpr()
 			logger.Printf("%v: assignment found: %v = %v", methodPosStr, lhsExpr, rhsExpr)
-			a = gmodel.SimpleField{LHS: lhsExpr, RHS: rhsExpr, Error: c.ReturnsError()}
+			a = stringerGuard(c, gmodel.SimpleField{LHS: lhsExpr, RHS: rhsExpr, Error: c.ReturnsError()})
 			return true
 		}
 
@@ -269,10 +269,21 @@ func (b *assignmentBuilder) notationTargetsMemberOf(lhsStruct bmodel.Node) (foun
 // nil check for every pointer the path dereferences below the root variable, so that
 // a nil nested pointer leaves the destination untouched instead of panicking.
 func nilGuard(src bmodel.Node, a gmodel.Assignment) gmodel.Assignment {
+	a = stringerGuard(src, a)
 	for p := src.Parent(); p != nil && p.Parent() != nil; p = p.Parent() {
 		if p.ObjNullable() {
 			a = gmodel.NestStruct{NullCheckExpr: p.NullCheckExpr(), Contents: []gmodel.Assignment{a}}
 		}
+	}
+	return a
+}
+
+// stringerGuard wraps an assignment that calls String() on a pointer in a nil check
+// for that pointer: String() is looked up on the value type, so calling it through a
+// nil pointer panics.
+func stringerGuard(src bmodel.Node, a gmodel.Assignment) gmodel.Assignment {
+	if ptrExpr, ok := bmodel.CallsStringOnPointer(src); ok {
+		a = gmodel.NestStruct{NullCheckExpr: ptrExpr, Contents: []gmodel.Assignment{a}}
 	}
 	return a
 }
